@@ -43,7 +43,7 @@ TECHNIQUE = "bounded-exhaustive enumeration of loop bodies (all template sequenc
 RULE = ("one evaluation = one frame delivered / one call made inside a pumped loop body, or one non-opening frame in layer (a); "
         "non-trivial = bodies that survive all iterations with constant live-stream count (plateau judged)")
 ALPHABET = "server templates: open, open_es, data, data_es, trailers, rst, rst_old, wu_old, prio_fresh, respond_es, reset, ack; client templates: req_es, req, resp_es, resp, data_es, push, pushresp_es, rst_promised, reset_promised, rst, prio_fresh, wu_old"
-BOUNDS = {"quick": "(b) all bodies of length <= 3, 300 iterations, cap 8; bodies of length <= 2, 100 iterations, cap 0", "thorough": "(b) additionally the stream-closing bodies of length <= 2 pumped 200,000 times with the real cap"}
+BOUNDS = {"quick": "(b) all bodies of length <= 3, 300 iterations, cap 8; bodies of length <= 2, 100 iterations, cap 0; bodies of length <= 2, 300 iterations, every chunk ending inside a frame", "thorough": "(b) additionally the stream-closing bodies of length <= 2 pumped 200,000 times with the real cap"}
 sb = H.stateless_block
 
 
@@ -79,8 +79,15 @@ CLIENT_T = ["req_es", "req", "resp_es", "resp", "data_es", "push", "pushresp_es"
             "prio_fresh", "wu_old"]
 
 
+FILLER = wire.ping(b"unalign!").serialize()
+
+
 class Pump:
-    def __init__(self, client, cap_small):
+    def __init__(self, client, cap_small, unaligned=False):
+        # unaligned: every chunk handed to receive_data ends five bytes into a (PING) frame, whose other twelve bytes open
+        # the next chunk - no call ever ends on a frame boundary
+        self.unaligned = unaligned
+        self.carry = b""
         cfg = H.h2.config.H2Configuration(client_side=client)
         self.client = client
         self.conn = (ZeroCapConnection if cap_small == "zero" else SmallCapConnection if cap_small else H.h2.connection.H2Connection)(config=cfg)
@@ -98,8 +105,11 @@ class Pump:
         self.dead = None
 
     def rx(self, fr):
+        data = fr.serialize()
+        if self.unaligned:
+            data, self.carry = self.carry + data + FILLER[:5], FILLER[5:]
         try:
-            self.conn.receive_data(fr.serialize())
+            self.conn.receive_data(data)
         except H.ProtocolError as e:
             self.dead = "conn-error:%s" % type(e).__name__
         self.conn.data_to_send()
@@ -201,7 +211,7 @@ def job_bodies(job):
                     viols.setdefault(repr(v["sig"]), v)
                 outcomes["long-pump-skipped"] = outcomes.get("long-pump-skipped", 0) + 1
                 continue
-        p = Pump(client, small)
+        p = Pump(client, small, unaligned=bool(job.get("unaligned")))
         # prelude: one long-lived stream, so that bodies without an opening template have something to act on
         p.step("req" if client else "open")
         half = None
@@ -224,7 +234,7 @@ def job_bodies(job):
             if it == N // 2 - 1:
                 half = measure(p.conn)
                 half_bd = table_breakdown(p.conn)
-        case = {"client": client, "body": list(body), "N": N, "small": small}
+        case = {"client": client, "body": list(body), "N": N, "small": small, "unaligned": bool(job.get("unaligned"))}
         key = "conn-error" if p.dead else "survived"
         if overflow:
             s = {"kind": "closed-stream-memory-above-cap", "role": "client" if client else "server"}
@@ -431,7 +441,8 @@ def replay(rec):
     case = rec.get("case", {})
     if case.get("layer") in ("static", "after-error"):
         return job_static({"client": case["client"]})["violations"]
-    return job_bodies({"client": case["client"], "bodies": [tuple(case["body"])], "N": case["N"], "small": case["small"]})["violations"]
+    return job_bodies({"client": case["client"], "bodies": [tuple(case["body"])], "N": case["N"], "small": case["small"],
+                       "unaligned": case.get("unaligned", False)})["violations"]
 
 
 def make_spec(key):
@@ -451,6 +462,8 @@ def run(ctx):
         short = [b for b in bodies if len(b) <= 2]
         for i in range(0, len(short), 40):
             jobs.append({"fam": "bodies", "client": client, "bodies": short[i:i + 40], "N": 100, "small": "zero"})
+        for i in range(0, len(short), 40):
+            jobs.append({"fam": "bodies", "client": client, "bodies": short[i:i + 40], "N": 300, "small": True, "unaligned": True})
         jobs.append({"fam": "static", "client": client})
         if not quick:
             closing = [b for k in (1, 2) for b in itertools.product(T, repeat=k)
